@@ -630,7 +630,11 @@ func (x *Transaction) UnmarshalCBOR(data []byte) error {
 	}
 	// second is the data DataFrame
 	if data, ok := arr.Get(1); ok {
-		dataArr := _array(data.([]interface{}))
+		dataList, ok := data.([]interface{})
+		if !ok {
+			return fmt.Errorf("expected data to be []interface{}, got %T", data)
+		}
+		dataArr := _array(dataList)
 		var d DataFrame
 		if err := d.fromCBORArray(dataArr); err != nil {
 			return fmt.Errorf("failed to decode metadata: %w", err)
@@ -641,7 +645,11 @@ func (x *Transaction) UnmarshalCBOR(data []byte) error {
 	}
 	// third is the metadata DataFrame
 	if metadata, ok := arr.Get(2); ok {
-		metaArr := _array(metadata.([]interface{}))
+		metaList, ok := metadata.([]interface{})
+		if !ok {
+			return fmt.Errorf("expected metadata to be []interface{}, got %T", metadata)
+		}
+		metaArr := _array(metaList)
 		var m DataFrame
 		if err := m.fromCBORArray(metaArr); err != nil {
 			return fmt.Errorf("failed to decode metadata: %w", err)
